@@ -10,6 +10,18 @@ REPO = "/repo"
 ENV = {**os.environ, "GOFLAGS": "-mod=mod", "GOPROXY": "off"}
 SEEDED = os.path.join(ROOT, "seeded")
 
+
+def prep_verif(ver):
+    """scratch /verif for a run against a scratch repo: the committed findings, witnesses and bounded stand-ins"""
+    shutil.copy(os.path.join(ROOT, "known_findings.json"), ver)
+    shutil.copytree(os.path.join(ROOT, "findings"), os.path.join(ver, "findings"))
+    for extra in ("bounded.json", "undecided.json"):
+        if os.path.exists(os.path.join(ROOT, extra)):
+            shutil.copy(os.path.join(ROOT, extra), ver)
+    if os.path.isdir(os.path.join(ROOT, "bounded")):
+        shutil.copytree(os.path.join(ROOT, "bounded"), os.path.join(ver, "bounded"))
+
+
 def sh(cmd, cwd, timeout=900):
     p = subprocess.run(cmd, cwd=cwd, capture_output=True, text=True, env=ENV, timeout=timeout)
     return p.returncode, p.stdout + p.stderr
@@ -66,8 +78,7 @@ def baseline(prop):
         tmp = tempfile.mkdtemp(prefix="govc-seed-base-")
         try:
             ver = os.path.join(tmp, "verif"); os.makedirs(ver)
-            shutil.copy(os.path.join(ROOT, "known_findings.json"), ver)
-            shutil.copytree(os.path.join(ROOT, "findings"), os.path.join(ver, "findings"))
+            prep_verif(ver)
             r = subprocess.run([os.path.join(ROOT, "bin", "govc"), "check", "-property", prop, "-repo", REPO, "-verif", ver, "-v"], capture_output=True, text=True, env=ENV)
             _base[prop] = {l.split()[1] for l in r.stdout.splitlines() if l.strip().startswith("FAILED ")}
         finally:
@@ -82,8 +93,7 @@ def detect(sid):
     try:
         for prop in props:
             ver = os.path.join(tmp, "verif-" + prop); os.makedirs(ver)
-            shutil.copy(os.path.join(ROOT, "known_findings.json"), ver)
-            shutil.copytree(os.path.join(ROOT, "findings"), os.path.join(ver, "findings"))
+            prep_verif(ver)
             r = subprocess.run([os.path.join(ROOT, "bin", "govc"), "check", "-property", prop, "-repo", repo, "-verif", ver, "-v"], capture_output=True, text=True, env=ENV)
             known = {l.split()[2].rstrip(":") for l in r.stdout.splitlines() if l.startswith("KNOWN-FINDING:")}
             failed = [l.split()[1] for l in r.stdout.splitlines() if l.strip().startswith("FAILED ")]
